@@ -352,6 +352,30 @@ func init() {
 	}
 	// gjson computes Result.Index through unsafe string headers; the index is never used here
 	externals["github.com/tidwall/gjson.fillIndex"] = noop
+	externals["github.com/tidwall/gjson.stringBytes"] = func(fr *frame, args []value) value {
+		return bytesToValue([]byte(argStr(args[0])))
+	}
+	externals["github.com/tidwall/gjson.bytesString"] = func(fr *frame, args []value) value {
+		return string(valueToBytes(args[0]))
+	}
+	// gogoproto Marshal/Unmarshal outside a codec (Any packing): pack/unpack identity
+	externals["github.com/cosmos/gogoproto/proto.Marshal"] = func(fr *frame, args []value) value {
+		return tuple{prim_verifPack(fr, args), iface{}}
+	}
+	externals["github.com/cosmos/gogoproto/proto.Unmarshal"] = func(fr *frame, args []value) value {
+		prim_verifUnpack(fr, args)
+		return iface{}
+	}
+	externals["github.com/cosmos/gogoproto/proto.MessageName"] = func(fr *frame, args []value) value {
+		m := args[0].(iface)
+		if m.t == nil {
+			return ""
+		}
+		return strings.TrimPrefix(m.t.String(), "*")
+	}
+	// typed events are rendered through reflection-driven JSON; events are outside every claim
+	externals["(*github.com/cosmos/cosmos-sdk/types.EventManager).EmitTypedEvent"] = func(fr *frame, args []value) value { return iface{} }
+	externals["(*github.com/cosmos/cosmos-sdk/types.EventManager).EmitTypedEvents"] = func(fr *frame, args []value) value { return iface{} }
 	registerFmt()
 	registerErrors()
 }
